@@ -47,6 +47,14 @@ Returns the drained entries in slot order. -/
 def drain (s : Store P) : Array (Item × P) × Store P :=
   (s.map, { s with map := #[], heap := #[], qp := #[], size := 0 })
 
+/-- `impl Debug for Store` (what `{:?}` of both queue kinds prints): for every heap position in turn the slot index found
+there and the entry of that slot, `self.map.get_index(i.0).unwrap()` (site 190: a panic if the table names a slot the
+map does not have). -/
+def debugEntries (s : Store P) : R (List (Nat × Item × P)) :=
+  s.heap.toList.mapM fun i => do
+    let e ← unwrapO (s.map.getIndex i) 190
+    pure (i, e.1, e.2)
+
 /-- `swap(a, b)`: two `get_unchecked` (sites 101, 102), `qp.swap` (103) and `heap.swap` (104), both bounds-checked. -/
 def swap (s : Store P) (a b : Nat) : R (Store P) := do
   let ia ← getU s.heap a 101
